@@ -1,8 +1,5 @@
 package main
 
-import (
-	"regexp"
-)
 
 type threadState struct{}
 
@@ -11,16 +8,4 @@ func (t *threadState) lockOp(in *Interp, mu *Value, op string)          {}
 func (t *threadState) syncPoint(in *Interp, what string)                {}
 func (t *threadState) spawn(in *Interp, fr *frame, fn Value, a []Value) {}
 
-type symFS struct{}
 
-func (f *symFS) stat(in *Interp, fr *frame, p Str) Value { panic(engineErr("symFS.stat")) }
-
-func (in *Interp) regexFindAllString(re *regexp.Regexp, s Str, n int) Value {
-	panic(engineErr("symbolic FindAllString not implemented"))
-}
-func (in *Interp) regexFindStringSubmatch(re *regexp.Regexp, s Str) Value {
-	panic(engineErr("symbolic FindStringSubmatch not implemented"))
-}
-func (in *Interp) regexReplaceAll(re *regexp.Regexp, src, repl Str) Str {
-	panic(engineErr("symbolic ReplaceAll not implemented"))
-}
